@@ -26,6 +26,7 @@ func init() {
 			"responses: the correct native or sha2 scramble of a configured password computed independently with crypto/sha1 and crypto/sha256, of the stored hash string itself, one bit off, " +
 			"one byte shorter or longer, random of length 0,1,19,20,21,31,32,33,40, another password's, XOR-preimages of length != 20; " +
 			"plus the same material through each UserManager.Check* loop (um), CheckHashPassword (hashchk), CalcPassword (native), CalcCachingSha2Password (sha2), hex.DecodeString (hexdec), " +
+			"isStoredHashPassword (storedhash: every kind of entry, and strings of 39-43 characters over hex and non-hex alphabets with and without the '*'), " +
 			"and SHA-1/SHA-256 of messages of every length 0-130 (sha1, sha256); non-trivial = a response was accepted or a digest/scramble was produced",
 		Generate: genC30,
 		Exec:     execC30,
@@ -62,6 +63,8 @@ func execC30(in core.Sexp) string {
 	case "hexdec":
 		b, _ := hex.DecodeString(string(in.Nth(1).Bytes()))
 		return core.Hex(b).String()
+	case "storedhash":
+		return core.B(server.VerifIsStoredHashPassword(string(in.Nth(1).Bytes()))).String()
 	case "native":
 		salt := in.Nth(1).Bytes()
 		saltCopy := append([]byte{}, salt...)
@@ -247,11 +250,9 @@ func c30Flip(g *core.Gen, b []byte) []byte {
 
 // c30Response picks an auth response for the entries; returns it with a tag.
 //
-// The responses built from the stored string itself (the open finding
-// hash-literal-accepted-as-password) are limited to *literalBudget per run: the
-// runner keeps at most 200 judged violations per run, in evaluation order, and
-// listed findings must not crowd out a new violation.
-func c30Response(g *core.Gen, salt []byte, es []c30entry, literalBudget *int) ([]byte, string) {
+// The responses built from the stored string itself (the repaired finding
+// hash-literal-accepted-as-password, fix f737e0b) are generated at full rate.
+func c30Response(g *core.Gen, salt []byte, es []c30entry) ([]byte, string) {
 	e := core.Pick(g, es)
 	correctNative := func(e c30entry) []byte {
 		if e.stage1 != nil {
@@ -264,15 +265,7 @@ func c30Response(g *core.Gen, salt []byte, es []c30entry, literalBudget *int) ([
 		}
 		return c30Native(salt, e.clear)
 	}
-	choice := g.Intn(16)
-	if choice == 6 || choice == 7 || choice == 14 {
-		if *literalBudget <= 0 {
-			choice = 0
-		} else {
-			*literalBudget--
-		}
-	}
-	switch choice {
+	switch g.Intn(16) {
 	case 0, 1, 2, 3:
 		return correctNative(e), "resp-native-correct"
 	case 4, 5:
@@ -354,15 +347,39 @@ func genC30(g *core.Gen) {
 		}
 		g.Emit(core.L(core.A("hexdec"), core.Hex(s)), "hexdec")
 	}
+	// isStoredHashPassword
+	for i := 0; i < g.Scale(300, 3000); i++ {
+		var str string
+		if g.Intn(3) == 0 {
+			str = c30Entry(g).stored
+		} else {
+			n := 40
+			if g.Intn(3) == 0 {
+				n = 38 + g.Intn(5)
+			}
+			b := make([]byte, n)
+			for j := range b {
+				if g.Intn(30) == 0 {
+					b[j] = core.Pick(g, hexAlpha)
+				} else {
+					b[j] = hexAlpha[g.Intn(22)]
+				}
+			}
+			str = string(b)
+			if g.Intn(6) != 0 {
+				str = "*" + str
+			}
+		}
+		g.Emit(core.L(core.A("storedhash"), core.Text(str)), "storedhash")
+	}
 	n := g.Scale(2200, 30000)
-	literalBudget := 120
 	for i := 0; i < n; i++ {
 		salt := c30Salt(g)
 		var es []c30entry
 		for k := 0; k < 1+g.Intn(4); k++ {
 			es = append(es, c30Entry(g))
 		}
-		resp, rtag := c30Response(g, salt, es, &literalBudget)
+		resp, rtag := c30Response(g, salt, es)
 		switch g.Intn(12) {
 		case 0: // the primitive functions
 			e := core.Pick(g, es)
